@@ -199,7 +199,11 @@ type Case struct {
 
 var base = time.Date(2024, 1, 1, 0, 0, 0, 0, time.UTC)
 
-var names = []string{"a", "ab", "a b", "a.b", "b", "a.yaml", "a.yml", "abc", "a.b.yaml", "c d.e", "A", "Ab"}
+// "a-n": the name of another DAG ("a") plus "-suffix" - the history directories are <name>-<md5(location)>
+var names = []string{"a", "ab", "a b", "a.b", "b", "a.yaml", "a.yml", "abc", "a.b.yaml", "c d.e", "A", "Ab", "a-n"}
+
+// the names of the every-ordered-pair rename stream
+var renameNames = []string{"a", "A", "ab", "Ab", "a b", "b", "a.b", "a-n"}
 
 // names used by the directed sequences only
 var allNames = append(append([]string{}, names...), "fresh", "zz")
@@ -654,8 +658,8 @@ func generated(tier string, rng *vh.Rng) []*Case {
 		}
 	}
 	// rename onto a taken name, every ordered pair of names (incl. names that differ in letter case only)
-	for _, n := range names {
-		for _, m := range names {
+	for _, n := range renameNames {
+		for _, m := range renameNames {
 			if m == n {
 				continue
 			}
@@ -742,9 +746,9 @@ func crashHelper(dir, newID string) {
 	_, _ = syscall.Open(filepath.Join(dir, "MARK-end"), syscall.O_RDONLY, 0)
 	if err != nil {
 		fmt.Println("ERR", classify(err))
-	} else {
-		fmt.Println("OK")
+		os.Exit(3) // the verdict is also the exit status: under an injected write fault nothing can be printed
 	}
+	fmt.Println("OK")
 }
 
 // ---------------------------------------------------------------------------------------------
